@@ -2640,6 +2640,18 @@ fn expect_bool_or_num_type(ty: &Type, meta: MetaInfo) -> Result<(), TypeErrors> 
     ))])
 }
 
+/// An expression of a still unspecified number type whose literals sit below the node.
+fn is_compound_number_expr(expr: &TypedExpr) -> bool {
+    matches!(
+        expr.inner,
+        ExprEnum::Op(..)
+            | ExprEnum::UnaryOp(..)
+            | ExprEnum::If(..)
+            | ExprEnum::Match(..)
+            | ExprEnum::Block(..)
+    )
+}
+
 pub(crate) fn check_or_constrain_unsigned(
     expr: &mut TypedExpr,
     expected: UnsignedNumType,
@@ -2652,6 +2664,11 @@ pub(crate) fn check_or_constrain_unsigned(
             actual: expr.ty.clone(),
         };
         return Err(vec![Some(TypeError::new(e, expr.meta))]);
+    }
+    if expr.ty != Type::Unsigned(expected) && is_compound_number_expr(expr) {
+        // the number literals nested in an operator / if / match / block expression take the type too
+        // (retyping only this node left them with their own 32 bits under a narrower type)
+        return constrain_type(expr, &Type::Unsigned(expected));
     }
     if let Some(max) = UnsignedNumType::max(&expected) {
         if let ExprEnum::NumUnsigned(n, _) = expr.inner {
@@ -2681,6 +2698,9 @@ pub(crate) fn check_or_constrain_signed(
             actual: expr.ty.clone(),
         };
         return Err(vec![Some(TypeError::new(e, expr.meta))]);
+    }
+    if expr.ty != Type::Signed(expected) && is_compound_number_expr(expr) {
+        return constrain_type(expr, &Type::Signed(expected));
     }
     if let Some(min) = SignedNumType::min(&expected) {
         if let ExprEnum::NumSigned(n, _) = expr.inner {
